@@ -1193,24 +1193,35 @@ class SQLObject(with_metaclass(declarative.DeclarativeMeta, object)):
                 if to_python:
                     value = to_python(dbValue, self._SO_validatorState)
                 toCache[name] = value
+
+            def setExtra():
+                for name, value in extra.items():
+                    try:
+                        getattr(self.__class__, name)
+                    except AttributeError:
+                        if name not in self.sqlmeta.columns:
+                            raise TypeError(
+                                "%s.set() got an unexpected keyword argument "
+                                "%s" % (self.__class__.__name__, name))
+                    try:
+                        setattr(self, name, value)
+                    except AttributeError as e:
+                        raise AttributeError(
+                            '%s (with attribute %r)' % (e, name))
+
+            if not self.sqlmeta._creating:
+                # a deferred update of an existing row: the other keywords
+                # first, as in the direct case -- one whose setter refuses
+                # its value must not leave the columns cached and queued
+                setExtra()
             # cache only once every value is validated
             for name, value in toCache.items():
                 setattr(self, instanceName(name), value)
 
             self._SO_createValues.update(kw)
 
-            for name, value in extra.items():
-                try:
-                    getattr(self.__class__, name)
-                except AttributeError:
-                    if name not in self.sqlmeta.columns:
-                        raise TypeError(
-                            "%s.set() got an unexpected keyword argument "
-                            "%s" % (self.__class__.__name__, name))
-                try:
-                    setattr(self, name, value)
-                except AttributeError as e:
-                    raise AttributeError('%s (with attribute %r)' % (e, name))
+            if self.sqlmeta._creating:
+                setExtra()
 
             if kw:
                 self.sqlmeta.dirty = True
